@@ -123,30 +123,32 @@ class Skeleton:
         inner_edge_triangles = [k for k, v in Counter(first_last).items() if v > 1]
         
         visited = []
-        for index in range(len(inner_edge_triangles) - 1):
-            if (inner_edge_triangles[index] in visited or
-                inner_edge_triangles[index][::-1] in visited):
+        for triangle_ends in inner_edge_triangles:
+            if (triangle_ends in visited or
+                triangle_ends[::-1] in visited):
                 continue
 
-            edge_0_index = first_last.index(inner_edge_triangles[index]) % num_elements
-            edge_1_index = first_last.index(inner_edge_triangles[(index + 1)]) % num_elements
-            edge_0 = self.all_big_edges[edge_0_index]
-            if len(edge_0) > 3:
+            # the interfaces that join these two vertices, in whichever direction they are stored
+            same_ends = [e for e in self.all_big_edges
+                         if (e[0], e[-1]) == triangle_ends or (e[-1], e[0]) == triangle_ends]
+            edge_0 = max(same_ends, key=len)
+            edge_1 = min(same_ends, key=len)
+            extra_vertices = np.setdiff1d(edge_0, edge_1)
+            if len(edge_0) > 3 or len(extra_vertices) == 0:
                 continue
-            edge_1 = self.all_big_edges[edge_1_index]
-            vertex_id_to_delete = np.setdiff1d(edge_0, edge_1)[0]
+            vertex_id_to_delete = extra_vertices[0]
 
             its_cells = self.vertices[vertex_id_to_delete].ownCells
             for cell_id in its_cells:
                 self.cells[cell_id].replace_vertex(self.vertices[vertex_id_to_delete],
                                                    self.vertices[edge_0[0]])
 
-            its_edges = self.vertices[vertex_id_to_delete].ownEdges
+            its_edges = list(self.vertices[vertex_id_to_delete].ownEdges)
             for edge_id in its_edges:
                 del self.edges[edge_id]
 
             del self.vertices[vertex_id_to_delete]
-            visited.append(inner_edge_triangles[index])
+            visited.append(triangle_ends)
 
         # get artifacts from the contour and apply T3 transitions to them
         all_artifact_vertices = list(self.get_artifacts())
